@@ -1,14 +1,21 @@
-"""Has the function a finding points at started to delegate to code the rule did not look at?
+"""Has the function a finding points at changed *shape* in a way the rules were not written for?
 
 A rule that reads the body of an anchored function decides nothing about statements that were moved into a helper the function now calls (extract
-method, pull-up into a base class). Reporting "the expected construct is gone" in that situation would be a false alarm on a behaviour-preserving
-refactoring, so such findings are *withheld*: the run ends as ANALYSIS-ERROR (exit 2, "not decided for this shape") unless another finding stands.
+method, pull-up into a base class), about values that now travel inside a new parameter object or a new table, or about a function whose parameters
+were reordered. Reporting "the expected construct is gone" in that situation would be a false alarm on a behaviour-preserving refactoring, so such
+findings are *withheld*: the run ends as ANALYSIS-ERROR (exit 2, "not decided for this shape") unless another finding stands.
 
-Reference: `sa/refcalls.json` (module -> qualname -> names called by the function on the tree the rules were written against; regenerated together with
-refnames.json by `python -m sa.alpha --write`). A callee counts as a new helper when the package defines a function or method of that name, no function of that name
-exists anywhere in the reference tree, the reference version of the calling function did not call that name, and - for rules declared `follows_calls` - the
-interpreter (norm / symexec inlining) did not enter it during this run. Findings a rule marks `definite` (a positively wrong construct was identified, not an
-expected one missed) are never withheld.
+Reference: `sa/refcalls.json`, regenerated together with refnames.json by `python -m sa.alpha --write` from the tree the rules were written against:
+per function the names it calls and its parameter list; for the whole package the names of all functions and classes, all module-level names and all
+attribute names. A function "changed shape" when
+
+  * it does not exist in the reference (a new function), or its parameter list differs from the reference's,
+  * it calls a function or class of the package that exists nowhere in the reference (an extracted / pulled-up helper, a new record type) and that
+    the interpreter did not enter during this run (rules declared `follows_calls` only),
+  * it calls a package function whose parameter list changed (every definition of that name),
+  * it reads a module-level name or an attribute name that exists nowhere in the reference (a new lookup table, a merged private field).
+
+Findings a rule marks `definite` (a positively wrong construct was identified, not an expected one missed) are never withheld.
 """
 
 from __future__ import annotations
@@ -16,10 +23,10 @@ from __future__ import annotations
 import ast
 import json
 from pathlib import Path
-from typing import Dict, List, Optional, Set
+from typing import Any, Dict, List, Optional, Set
 
 TABLE = Path(__file__).resolve().parent / "refcalls.json"
-_CACHE: Optional[Dict[str, Dict[str, List[str]]]] = None
+_CACHE: Optional[Dict[str, Any]] = None
 
 
 def _functions(tree: ast.AST, prefix: str = ""):
@@ -43,11 +50,62 @@ def callee_names(fn: ast.AST) -> Set[str]:
     return out
 
 
-def describe(tree: ast.AST) -> Dict[str, List[str]]:
-    return {q: sorted(callee_names(fn)) for q, fn in _functions(tree)}
+def _params(fn: ast.AST) -> List[str]:
+    a = fn.args
+    return [x.arg for x in a.posonlyargs + a.args] + (["*" + a.vararg.arg] if a.vararg else []) + [x.arg for x in a.kwonlyargs] + (["**" + a.kwarg.arg] if a.kwarg else [])
 
 
-def table() -> Dict[str, Dict[str, List[str]]]:
+def _module_level_names(tree: ast.AST) -> Set[str]:
+    out: Set[str] = set()
+    for st in getattr(tree, "body", []):
+        if isinstance(st, (ast.Assign, ast.AnnAssign)):
+            for t in st.targets if isinstance(st, ast.Assign) else [st.target]:
+                if isinstance(t, ast.Name):
+                    out.add(t.id)
+    return out
+
+
+def _attr_names(tree: ast.AST) -> Set[str]:
+    return {n.attr for n in ast.walk(tree) if isinstance(n, ast.Attribute)}
+
+
+def _defined(tree: ast.AST) -> Set[str]:
+    out = {q.split(".")[-1] for q, _ in _functions(tree)}
+    out |= {n.name for n in ast.walk(tree) if isinstance(n, ast.ClassDef)}
+    return out
+
+
+def _class_self_attrs(tree: ast.AST) -> Dict[str, List[str]]:
+    """class name -> attribute names accessed on self / cls inside the class (its own fields and methods, lexically)."""
+    out: Dict[str, List[str]] = {}
+    for c in ast.walk(tree):
+        if isinstance(c, ast.ClassDef):
+            names = {n.attr for n in ast.walk(c) if isinstance(n, ast.Attribute) and isinstance(n.value, ast.Name) and n.value.id in ("self", "cls")}
+            names |= {t.id for st in c.body if isinstance(st, (ast.Assign, ast.AnnAssign)) for t in (st.targets if isinstance(st, ast.Assign) else [st.target]) if isinstance(t, ast.Name)}
+            out[c.name] = sorted(set(out.get(c.name, [])) | names)
+    return out
+
+
+def snapshot(package) -> Dict[str, Any]:
+    funcs: Dict[str, Dict[str, Any]] = {}
+    defined: Set[str] = set()
+    globs: Set[str] = set()
+    attrs: Set[str] = set()
+    by_name: Dict[str, Set[str]] = {}
+    class_attrs: Dict[str, Dict[str, List[str]]] = {}
+    for name, mod in sorted(package.modules.items()):
+        class_attrs[name] = _class_self_attrs(mod.tree)
+        funcs[name] = {}
+        for q, fn in _functions(mod.tree):
+            funcs[name][q] = {"calls": sorted(callee_names(fn)), "params": _params(fn)}
+            by_name.setdefault(q.split(".")[-1], set()).add("|".join(_params(fn)))
+        defined |= _defined(mod.tree)
+        globs |= _module_level_names(mod.tree)
+        attrs |= _attr_names(mod.tree)
+    return {"functions": funcs, "defined": sorted(defined), "globals": sorted(globs), "attrs": sorted(attrs), "signatures": {k: sorted(v) for k, v in sorted(by_name.items())}, "class_attrs": class_attrs}
+
+
+def table() -> Dict[str, Any]:
     global _CACHE
     if _CACHE is None:
         _CACHE = json.loads(TABLE.read_text()) if TABLE.exists() else {}
@@ -55,35 +113,78 @@ def table() -> Dict[str, Dict[str, List[str]]]:
 
 
 def write(package) -> int:
-    out = {name: describe(mod.tree) for name, mod in sorted(package.modules.items())}
-    TABLE.write_text(json.dumps(out, indent=0, sort_keys=True) + "\n")
-    return sum(len(v) for v in out.values())
+    snap = snapshot(package)
+    TABLE.write_text(json.dumps(snap, indent=0, sort_keys=True) + "\n")
+    return sum(len(v) for v in snap["functions"].values())
 
 
-def new_helpers(package, module: str, qualname: str, touched: Set[str]) -> List[str]:
-    """Names of package functions the function now calls, did not call in the reference, and that were not interpreted in this run.
-    ['<new function>'] when the function itself does not exist in the reference."""
-    ref_mod = table().get(module)
+_CUR: Dict[int, Dict[str, Any]] = {}
+
+
+def _current(package) -> Dict[str, Any]:
+    key = id(package)
+    if key not in _CUR:
+        _CUR[key] = snapshot(package)
+    return _CUR[key]
+
+
+def shape_changes(package, module: str, qualname: str, touched: Set[str], only_helpers: bool = False) -> List[str]:
+    """Why a finding located in this function is not decidable by a rule that reads the reference shape ([] = the function still has the shape)."""
+    ref = table()
+    if not ref:
+        return []
+    ref_mod = ref["functions"].get(module)
     mod = package.modules.get(module)
     if ref_mod is None or mod is None:
         return []
-    cur = dict(_functions(mod.tree))
-    fn = cur.get(qualname)
+    cur_funcs = dict(_functions(mod.tree))
+    fn = cur_funcs.get(qualname)
     if fn is None:
-        # class-level or module-level finding: every function of that class / module that is new or delegates anew
-        scope = [q for q in cur if qualname in ("<module>", "") or q.startswith(qualname + ".")]
+        # class-level or module-level finding: every function in that scope that changed shape
+        scope = [q for q in cur_funcs if qualname in ("<module>", "") or q.startswith(qualname + ".")]
         out: List[str] = []
         for q in scope:
-            out += [f"{q} -> {h}" for h in new_helpers(package, module, q, touched)]
+            out += [f"{q}: {h}" for h in shape_changes(package, module, q, touched, only_helpers)]
         return out
     if qualname not in ref_mod:
-        return ["<new function>"]
-    defined: Set[str] = set()
-    for m in package.modules.values():
-        for q, _ in _functions(m.tree):
-            defined.add(q.split(".")[-1])
-    known = {q.split(".")[-1] for fns in table().values() for q in fns}  # every function name the reference tree defines
+        return ["new function"]
+    reasons: List[str] = []
+    rf = ref_mod[qualname]
+    if _params(fn) != rf["params"]:
+        reasons.append(f"parameters changed from ({', '.join(rf['params'])}) to ({', '.join(_params(fn))})")
+    cur = _current(package)
+    known = set(ref["defined"])
     interpreted = {t.split(":")[-1].split(".")[-1] for t in touched}
-    fresh = callee_names(fn) - set(ref_mod[qualname])
-    # a *new function* of the package (an extracted / pulled-up helper); a new call of a function that already existed is something the rules can read
-    return sorted(h for h in fresh if h in defined and h not in known and h not in interpreted)
+    # every called name that the package defines now and the reference tree defines nowhere (whether or not the reference version of the function already
+    # called something of that name, e.g. set.add before a record type grew an add() method)
+    new_helpers = sorted(h for h in callee_names(fn) if h in set(cur["defined"]) and h not in known and h not in interpreted)
+    if new_helpers:
+        reasons.append(f"delegates to new {new_helpers[:4]}")
+    if only_helpers:  # a rule that interprets what it reads (parameter objects, new fields and tables included) gives way only to code it did not enter
+        return [r for r in reasons if r.startswith("delegates to new")]
+    changed_sig = sorted(h for h in callee_names(fn) if h in ref["signatures"] and h in cur["signatures"] and cur["signatures"][h] != ref["signatures"][h] and h != "__init__")
+    if changed_sig:
+        reasons.append(f"calls {changed_sig[:4]} whose parameters changed")
+    new_globals = sorted({n.id for n in ast.walk(fn) if isinstance(n, ast.Name) and isinstance(n.ctx, ast.Load)} & (set(cur["globals"]) - set(ref["globals"])))
+    if new_globals:
+        reasons.append(f"reads new module-level {new_globals[:4]}")
+    # fields the package itself introduces (accessed on self / cls in some class now, unknown as attribute, function or class name to the reference):
+    # attributes of library objects (Path.home, struct_time.tm_year, ...) are not a change of the package's own shape
+    own_fields = {a for cls_map in cur.get("class_attrs", {}).values() for names in cls_map.values() for a in names}
+    ref_fields = {a for cls_map in ref.get("class_attrs", {}).values() for names in cls_map.values() for a in names}
+    new_attrs = sorted(({n.attr for n in ast.walk(fn) if isinstance(n, ast.Attribute)} & own_fields) - set(ref["attrs"]) - ref_fields - set(ref["globals"]) - known - set(new_helpers))
+    if new_attrs:
+        reasons.append(f"uses new attribute(s) {new_attrs[:4]}")
+    if "." in qualname:
+        cls_name = qualname.split(".")[0]
+        ref_cls = ref.get("class_attrs", {}).get(module, {}).get(cls_name)
+        if ref_cls is not None:
+            mine = {n.attr for n in ast.walk(fn) if isinstance(n, ast.Attribute) and isinstance(n.value, ast.Name) and n.value.id in ("self", "cls") and n.attr.startswith("_")}
+            fresh_fields = sorted(mine - set(ref_cls) - set(new_attrs) - set(new_helpers))
+            if fresh_fields:
+                reasons.append(f"uses field(s) new to class {cls_name}: {fresh_fields[:4]}")
+    return reasons
+
+
+def new_helpers(package, module: str, qualname: str, touched: Set[str]) -> List[str]:  # kept for callers of the first version
+    return shape_changes(package, module, qualname, touched)
